@@ -373,8 +373,41 @@ def run_eof(ck, F):
             ck.bad("C18.eof-only", iid, "%s: no match on the read result found (anchor moved?)" % fid, "%s:%s" % (fn["file"], fn["line"]))
 
 
+KIND_SITES = {
+    "arrow_ipc::reader::MessageReader::<R>::read_meta_len": "UnexpectedEof on the 4-byte length prefix is the documented end of stream (rule C18.eof-only)",
+}
+
+
+def run_kind_inventory(ck, F):
+    ck.rule("C18.errorkind-inventory", "functions of the reader/writer crates that branch on io::Error::kind() (the only way an I/O error can be "
+            "turned into something else than an error) are exactly the audited ones", floor=1)
+    for c in F.crates(CRATES):
+        for fn in c.fns:
+            if "mir" not in fn:
+                continue
+            b = Body(fn)
+            hits = [bb for bb, t in b.calls() if disc.short(callee(t) or "") == "Error::kind" and "std::io" in (callee(t) or "")]
+            if not hits:
+                continue
+            if fn["id"] in KIND_SITES:
+                ck.ok("C18.errorkind-inventory", fn["id"], "audited: " + KIND_SITES[fn["id"]])
+            else:
+                # allowed without audit only if every path from the test leads to an error exit
+                exits = flow.ok_exits(b) if flow.returns_result(b) else b.return_blocks()
+                errs = set(flow.err_exits(b))
+                r = set()
+                for h in hits:
+                    r |= b.reachable(h)
+                swallow = [e for e in exits if e in r and e not in errs]
+                if swallow and flow.returns_result(b):
+                    ck.bad("C18.errorkind-inventory", fn["id"], "%s branches on io::ErrorKind and can then return Ok: an I/O fault may be mapped to data/end-of-input" % fn["id"], b.loc(hits[0]))
+                else:
+                    ck.ok("C18.errorkind-inventory", fn["id"], "kind() only refines the error that is returned")
+
+
 def run(ck, tier):
     F = factsmod.Facts("ws")
+    run_kind_inventory(ck, F)
     run_nodrop(ck, F)
     run_must(ck, F)
     run_shortwrite(ck, F)
